@@ -21,14 +21,14 @@ type CV struct {
 
 // CEnv evaluates contract expressions to SMT terms.
 type CEnv struct {
-	ft    *FT
-	vars  map[string]*CV
-	cur   State
-	old   State
-	body  *Body
-	pkg   *types.Package // package whose scope resolves bare identifiers
-	nq    int
-	at    *ssa.BasicBlock // program point (for resolving local names)
+	ft   *FT
+	vars map[string]*CV
+	cur  State
+	old  State
+	body *Body
+	pkg  *types.Package // package whose scope resolves bare identifiers
+	nq   int
+	at   *ssa.BasicBlock // program point (for resolving local names)
 }
 
 func (ft *FT) fnEnv(b *Body, st State) *CEnv {
